@@ -32,6 +32,7 @@ import (
 	"sync"
 	"time"
 
+	dbmodels "github.com/influxdata/influxdb/models"
 	"github.com/influxdata/kapacitor"
 	"github.com/influxdata/kapacitor/edge"
 	"github.com/influxdata/kapacitor/models"
@@ -288,6 +289,7 @@ func execCaseOpt(ops []string, doReplay bool) (out []string) {
 		fpoints   []edge.PointMessage            // file mode: the points to record
 		fbatches  [][]edge.BufferedBatchMessage  // file mode: the batches of the completed sources
 		fcur      []edge.BufferedBatchMessage    // file mode: the batches of the current source
+		liveMode  bool                           // nothing is recorded: the items are fed to Replay*FromChan on channels
 	)
 	for _, raw := range ops {
 		line := raw
@@ -298,7 +300,7 @@ func execCaseOpt(ops []string, doReplay bool) (out []string) {
 		if len(t) == 0 {
 			continue
 		}
-		need := map[string]int{"stream": 4, "batch": 3, "pt": 7, "b": 6, "replay": 1, "src": 1}
+		need := map[string]int{"stream": 4, "batch": 3, "pt": 7, "b": 6, "replay": 1, "src": 1, "lp": 4, "lpend": 1}
 		if t[0] == "src" {
 			srcs = append(srcs, append([]byte(nil), buf.Bytes()...))
 			buf.Reset()
@@ -315,6 +317,7 @@ func execCaseOpt(ops []string, doReplay bool) (out []string) {
 		case "stream":
 			mode, recTime, zero, precision = "stream", t[1] == "1", parseTime(t[2]), t[3]
 			fileMode = len(t) > 4 && t[4] == "file"
+			liveMode = len(t) > 4 && t[4] == "live"
 			if fileMode {
 				precision = replay.VerifRecordingPrecision
 			}
@@ -322,22 +325,36 @@ func execCaseOpt(ops []string, doReplay bool) (out []string) {
 		case "batch":
 			mode, recTime, zero = "batch", t[1] == "1", parseTime(t[2])
 			fileMode = len(t) > 3 && t[3] == "file"
+			liveMode = len(t) > 3 && t[3] == "live"
+			out = append(out, line)
+		case "lp":
+			out = append(out, line+" => "+parseReal(un(t[2]), t[1]))
+		case "lpend":
 			out = append(out, line)
 		case "pt":
 			p := edge.NewPointMessage(un(t[3]), un(t[1]), un(t[2]), models.Dimensions{}, parseFields(t[5]), parseTags(t[4]), parseTime(t[6]))
 			fpoints = append(fpoints, p)
+			before := buf.Len()
 			func() {
 				defer func() {
 					if r := recover(); r != nil {
 						recErr = true
 					}
 				}()
+				if liveMode {
+					return
+				}
 				if err := kapacitor.WritePointForRecording(&buf, p, precision); err != nil {
 					recErr = true
 				}
 			}()
 			// what the recorded message itself says about its group (observed, for the spec)
-			out = append(out, line+" => "+kit.Esc(string(p.GroupID()))+" "+b01(p.Dimensions().ByName)+":"+renderDims(p.Dimensions()))
+			// and the bytes the real writer produced for this point (compared byte for byte with the model's writer)
+			wire := ""
+			if !liveMode && !recErr {
+				wire = " " + kit.Esc(string(buf.Bytes()[before:]))
+			}
+			out = append(out, line+" => "+kit.Esc(string(p.GroupID()))+" "+b01(p.Dimensions().ByName)+":"+renderDims(p.Dimensions())+wire)
 		case "b":
 			var pts []edge.BatchPointMessage
 			if t[5] != "-" {
@@ -357,6 +374,9 @@ func execCaseOpt(ops []string, doReplay bool) (out []string) {
 						recErr = true
 					}
 				}()
+				if liveMode {
+					return
+				}
 				if err := kapacitor.WriteBatchForRecording(&buf, b); err != nil {
 					recErr = true
 				}
@@ -428,6 +448,31 @@ func execCaseOpt(ops []string, doReplay bool) (out []string) {
 					out = append(out, line+" => fileerr 0 0")
 					continue
 				}
+			}
+			if mode == "batch" && liveMode {
+				out = append(out, line+" => "+liveBatch(clk, append(fbatches, fcur), recTime))
+				continue
+			}
+			if mode == "stream" && liveMode {
+				col := &collector{clk: clk}
+				ch := make(chan edge.PointMessage)
+				go func() {
+					defer close(ch)
+					for _, p := range fpoints {
+						ch <- p
+					}
+				}()
+				var status string
+				func() {
+					defer func() {
+						if r := recover(); r != nil {
+							status = "panic"
+						}
+					}()
+					status = wait(kapacitor.ReplayStreamFromChan(clk, ch, col, recTime))
+				}()
+				out = append(out, line+" => "+col.result(status))
+				continue
 			}
 			if mode == "batch" {
 				all := append(srcs, append([]byte(nil), buf.Bytes()...))
@@ -513,6 +558,77 @@ func execCaseOpt(ops []string, doReplay bool) (out []string) {
 		}
 	}
 	return out
+}
+
+// liveBatch feeds the batches of every source to the REAL kapacitor.ReplayBatchFromChan on unbuffered channels, the way
+// services/replay does for `replay-live` (doLiveBatchReplay / doLiveQueryReplay): nothing is recorded in between.
+func liveBatch(clk *recClock, sources [][]edge.BufferedBatchMessage, recTime bool) string {
+	var chans []<-chan edge.BufferedBatchMessage
+	var cols []*collector
+	var bcols []kapacitor.BatchCollector
+	for _, bs := range sources {
+		ch := make(chan edge.BufferedBatchMessage)
+		go func(bs []edge.BufferedBatchMessage) {
+			defer close(ch)
+			for _, b := range bs {
+				ch <- b
+			}
+		}(bs)
+		chans = append(chans, ch)
+		c := &collector{clk: clk, multi: len(sources) > 1}
+		cols = append(cols, c)
+		bcols = append(bcols, c)
+	}
+	var status string
+	func() {
+		defer func() {
+			if r := recover(); r != nil {
+				status = "panic"
+			}
+		}()
+		status = wait(kapacitor.ReplayBatchFromChan(clk, chans, bcols, recTime))
+	}()
+	res := []string{status, strconv.Itoa(len(cols))}
+	for _, c := range cols {
+		res = append(res, c.resultSrc())
+	}
+	clk.mu.Lock()
+	us := append([]int64(nil), clk.all...)
+	clk.mu.Unlock()
+	sort.Slice(us, func(i, j int) bool { return us[i] < us[j] })
+	var ut []string
+	for _, u := range us {
+		ut = append(ut, strconv.FormatInt(u, 10))
+	}
+	res = append(res, "U:"+list(ut, ","))
+	return strings.Join(res, " ")
+}
+
+// parseReal runs the REAL influxdb line-protocol parser the way readPointsFromIO does and renders what it returned:
+// `point <name> <tags> <fields> <time ns>`, `nopoint`, `error`, `multi` (more than one point).
+func parseReal(line, precision string) (res string) {
+	defer func() {
+		if r := recover(); r != nil {
+			res = "panic"
+		}
+	}()
+	mps, err := dbmodels.ParsePointsWithPrecision([]byte(line), time.Time{}, precision)
+	if err != nil {
+		return "error"
+	}
+	if len(mps) == 0 {
+		return "nopoint"
+	}
+	if len(mps) > 1 {
+		return "multi"
+	}
+	mp := mps[0]
+	f, err := mp.Fields()
+	if err != nil {
+		return "error"
+	}
+	return strings.Join([]string{"point", kit.Esc(string(mp.Name())), renderTags(models.Tags(mp.Tags().Map())), renderFields(models.Fields(f)),
+		strconv.FormatInt(mp.Time().UnixNano(), 10)}, " ")
 }
 
 func emit(out *kit.Out, id string, lines []string) {
